@@ -291,18 +291,27 @@ func run(c *rig.Ctx) {
 	// (b) lock-step on generated programs
 	nprog := c.N(300, 6000)
 	c.Part("lockstep", nprog, func(i int64, r *rig.Rng) {
-		p := prog.Generate(r, prog.Options{Interrupts: i%2 == 0, AllOpcodes: true, Hardware: i%4 == 1})
+		p := prog.Generate(r, prog.Options{Interrupts: i%2 == 0, AllOpcodes: true, Hardware: i%4 == 1, Stops: i%2 == 1})
 		if i%6 == 5 {
 			p = prog.IdleLoops(r) // wait-for-interrupt loops instead of HALT
 			c.Count("idle_loop_programs", 1)
 		}
-		m := rig.MustNew(p.ROM, rig.Opts{})
+		// one program in five runs with the CPU trace option on (a debugging aid must not cost
+		// machine cycles)
+		opts := rig.Opts{}
+		if i%5 == 3 {
+			opts.DebugCPU = true
+			defer rig.QuietStdout()()
+			c.Count("lockstep_programs_with_cpu_trace", 1)
+		}
+		m := rig.MustNew(p.ROM, opts)
 		f := lockstep.New(m)
 		f.Violate = func(prop, class, msg string) {
 			if prop == "C02" {
 				c.Violate("lockstep-"+class, msg, map[string]any{"program": p.Describe()})
 			}
 		}
+		f.ThroughStop = i%2 == 1
 		if i%2 == 1 {
 			// key events at random machine cycles: they are no business of the CPU's
 			_, keys := f.RunCyclesWithKeys(int(c.N(8000, 30000)), r, 250)
